@@ -69,7 +69,7 @@ Theorem C12_listing : forall s tk nk tb k,
 Proof.
   intros s tk nk tb k Hinv Hk. rewrite (find_by_type_spec hash _ _ _ _ Hinv).
   split; [reflexivity|]. split; [apply (spec_ents_lookup _ _ _ _ _ 0%nat Hk)|].
-  split; [intros j; apply (spec_ents_lookup _ _ _ _ _ j Hk)|]. apply (rec_entries_spec hash). exact Hinv.
+  split; [intros j; apply (spec_ents_lookup _ _ _ _ _ j Hk)|]. eapply rec_entries_spec. exact Hinv.
 Qed.
 
 (** ** 3. The readers return the specification lists *)
@@ -108,12 +108,10 @@ Theorem C12_refines : forall c s name,
 Proof.
   intros c s name Hinv. split; [|split; [|split]].
   - intros typ s' v ns H.
-    destruct (get_records_spec hash valid_name valid_data str_ok hash_inj _ _ _ _ _ _ _ Hinv H)
-      as (tok & tb & nst & _ & H1 & _ & H2 & H3 & H4 & H5).
+    apply get_records_spec in H as (tok & tb & nst & _ & H1 & _ & H2 & H3 & H4 & H5); [|exact Hinv].
     exists tok, tb. auto.
   - intros s' v ns H.
-    destruct (get_all_records_spec hash valid_name valid_data str_ok hash_inj _ _ _ _ _ _ Hinv H)
-      as (tok & nst & _ & H1 & _ & H2 & H3 & H4).
+    apply get_all_records_spec in H as (tok & nst & _ & H1 & _ & H2 & H3 & H4); [|exact hash_inj|exact Hinv].
     exists tok. auto.
   - apply get_all_records_halts_iff.
   - intros typ. apply get_records_halts_iff.
@@ -130,8 +128,8 @@ Proof.
   intros ops c name typ s' v ns H.
   destruct (proj1 (C12_refines c _ name (C12_invariant ops)) _ _ _ _ H) as (tok & tb & H1 & H2 & _ & _ & H3).
   exists tok, tb. split; [exact H1|]. split; [exact H2|]. split; [exact H3|].
-  split; [apply (nrun_distinct hash valid_name valid_data str_ok hash_inj)|].
-  apply (spec_recs_shape hash). apply C12_invariant.
+  split; [apply nrun_distinct; exact hash_inj|].
+  eapply spec_recs_shape. apply C12_invariant.
 Qed.
 
 (** A successful [addRecord] appends [data] at the end of exactly one list
@@ -152,7 +150,7 @@ Theorem C12_add_appends : forall c s name typ data s' v ns,
        records s' !! (tk, nk, tb', i) = records s !! (tk, nk, tb', i)) /\
     names s' = names s /\ roots s' = roots s /\ supply s' = supply s /\ balances s' = balances s /\
     acctok s' = acctok s /\ price s' = price s /\ v = VNull /\ ns = [].
-Proof. intros c s name typ data s' v ns. apply add_record_spec. exact hash_inj. Qed.
+Proof. intros c s name typ data s' v ns. apply add_record_spec; exact hash_inj. Qed.
 
 (** ** 4. setRecord replaces by index *)
 (** A successful [setRecord name typ id data] replaces position [id] of exactly
@@ -173,7 +171,7 @@ Theorem C12_set_replaces : forall c s name typ id data s' v ns,
     records s' !! (hash tok, hash name, tb, Z.to_N id) = Some (mkR name typ data id) /\
     names s' = names s /\ roots s' = roots s /\ supply s' = supply s /\ balances s' = balances s /\
     acctok s' = acctok s /\ price s' = price s /\ v = VNull /\ ns = [].
-Proof. intros c s name typ id data s' v ns. apply set_record_spec. exact hash_inj. Qed.
+Proof. intros c s name typ id data s' v ns. apply set_record_spec; exact hash_inj. Qed.
 
 (** ** 5. deleteRecords empties one type, never SOA *)
 Theorem C12_delete_empties_one_type : forall c s name typ s' v ns,
@@ -228,7 +226,7 @@ Theorem C12_location : forall c s o s' v ns name,
   (exists typ, o = DeleteRecords name typ) ->
   exists tok, tok_of c s name = Halt tok /\
     forall tk nk tb i, tk <> hash tok -> records s' !! (tk, nk, tb, i) = records s !! (tk, nk, tb, i).
-Proof. intros c s o s' v ns name. apply mutation_location. exact hash_inj. Qed.
+Proof. intros c s o s' v ns name. apply mutation_location; exact hash_inj. Qed.
 
 (** ** 7. Every mutation refreshes the SOA serial of the token *)
 (** [soa_refreshed c old new]: [old]'s data has seven space-separated fields
@@ -243,7 +241,7 @@ Theorem C12_soa_serial : forall c s o s' v ns name,
       new = mkR (r_name old) (r_type old)
               (f0 ++ SPACE :: f1 ++ SPACE :: itoa (now c) ++ SPACE :: f3 ++ SPACE :: f4 ++ SPACE :: f5 ++ SPACE :: f6)
               (r_id old).
-Proof. intros c s o s' v ns name. apply mutation_soa_serial. exact hash_inj. Qed.
+Proof. intros c s o s' v ns name. apply mutation_soa_serial; exact hash_inj. Qed.
 
 (** ** 8. Resolve *)
 (** [rnode c s n T] = what [resolve] sees at a visited name [n] (one trailing
@@ -309,11 +307,11 @@ Theorem C12_resolve_unreadable_faults : forall c s name typ r0 c1 r1 c2,
      rnode c s c2 typ = Fault -> resolve_spec c s 3 name typ = Fault).
 Proof.
   intros c s name typ r0 c1 r1 c2. split; [apply resolve_spec_fault_node|]. split.
-  - intros Ht H0 Hc1 H1. rewrite (resolve_spec_step _ _ _ _ _ _ _ _ _ H0 Hc1 Ht).
-    rewrite (resolve_spec_fault_node _ _ _ _ _ _ _ H1). reflexivity.
-  - intros Ht H0 Hc1 H1 Hc2 H2. rewrite (resolve_spec_step _ _ _ _ _ _ _ _ _ H0 Hc1 Ht).
-    rewrite (resolve_spec_step _ _ _ _ _ _ _ _ _ H1 Hc2 Ht).
-    rewrite (resolve_spec_fault_node _ _ _ _ _ _ _ H2). reflexivity.
+  - intros Ht H0 Hc1 H1. erewrite resolve_spec_step by eassumption.
+    erewrite resolve_spec_fault_node by eassumption. reflexivity.
+  - intros Ht H0 Hc1 H1 Hc2 H2. erewrite resolve_spec_step by eassumption.
+    erewrite resolve_spec_step by eassumption.
+    erewrite resolve_spec_fault_node by eassumption. reflexivity.
 Qed.
 
 (** the link of a name is its single CNAME record *)
@@ -358,10 +356,10 @@ Proof. intros c s name typ tok. apply readers_fault_expired. Qed.
     present at another id. *)
 Theorem C12_distinct_step : forall c s o s' v ns,
   rec_inv s -> distinct_inv s -> nexec c s o = Halt (s', v, ns) -> distinct_inv s'.
-Proof. intros c s o s' v ns. apply nexec_distinct. exact hash_inj. Qed.
+Proof. intros c s o s' v ns. apply nexec_distinct; exact hash_inj. Qed.
 
 Theorem C12_distinct : forall ops tk nk tb, NoDup (spec_recs (nrun ops) tk nk tb).
-Proof. intros ops. apply (nrun_distinct hash valid_name valid_data str_ok hash_inj). Qed.
+Proof. intros ops. apply nrun_distinct; exact hash_inj. Qed.
 
 End C12.
 
